@@ -515,16 +515,21 @@ def fam_matrix(case):
 
 
 Q_MENU = [None, 0, 0.25, 0.5, 0.75, 1]
-V_MENU = [None, 0, 0.5, 1, 1.5, 2, 3]
+V_MENU = [None, -0.5, 0, 0.5, 1, 1.5, 2, 3]
 TYPE_MENU = [None, "above", "below", ["above", "below"], ["below", "above"]]
 
 
 def fam_thresh(case):
-    T, N, code = case
+    T, N, code = case[:3]
+    # the caller's data in another element type (all values exactly
+    # representable), optionally shifted so that negative values occur
+    dtype = case[3] if len(case) > 3 else "float64"
+    shift = case[4] if len(case) > 4 else 0
     ES = _ES()
-    data = np.array([[code // 3 ** (t * N + i) % 3 for i in range(N)]
+    data = np.array([[code // 3 ** (t * N + i) % 3 - shift for i in range(N)]
                      for t in range(T)], dtype=float)
     cols = [[int(v) for v in data[:, i]] for i in range(N)]
+    data = data.astype(dtype)
     viol, excl, sig = [], {}, []
     ev = 0
 
@@ -582,7 +587,8 @@ def fam_thresh(case):
                 G = np.asarray(G)
                 if G.shape != want.shape or not np.array_equal(G, want):
                     viol.append(V(
-                        "EventSeries.make_event_matrix:value:" + tag,
+                        "EventSeries.make_event_matrix:value:" + tag + (
+                            "" if dtype == "float64" else ":" + dtype),
                         "%s method=%r values=%r types=%r: events are not "
                         "exactly the samples beyond the threshold" % (
                             path, method, val, ttype), G, want))
@@ -710,8 +716,16 @@ def run(ctx):
     ctx.explore("matrix", [(7, 2, b, [("idx", 1, 0), ("nonuni", 2, 0)])
                            for b in order],
                 desc="all 7x2 event matrices, all symmetrisations")
-    ctx.explore("thresh", [(4, 2, c) for c in range(3 ** 8)],
-                desc="make_event_matrix on all (4,2) arrays over {0,1,2}")
+    th = [(4, 2, c) for c in range(3 ** 8)]
+    step = 1 if thorough else 13
+    for dt in ("int64", "int32", "float32"):
+        for sh in (0, 1):
+            th += [(4, 2, c, dt, sh) for c in range(0, 3 ** 8, step)]
+    th += [(4, 2, c, "float64", 1) for c in range(0, 3 ** 8, step)]
+    ctx.explore("thresh", th,
+                desc="make_event_matrix on all (4,2) arrays over {0,1,2}; "
+                "the same as int64/int32/float32 input and shifted to "
+                "{-1,0,1}%s" % ("" if thorough else " (every 13th array)"))
     # beyond the exhaustive bound: series of 60-300 (thorough 513) samples,
     # 10-40 events, large time offsets; same oracles
     sT = [60, 150, 257, 300] + ([200, 513] if thorough else [])
